@@ -98,7 +98,7 @@ Lemma command_progress c rc cm k :
   let k' := fst (command c rc (Some cm) k) in
   healthy k' /\ clean k' /\ k_conf k' = k_conf k /\ phase k' <= phase k - 1.
 Proof.
-  intros (G1 & G2 & _ & _ & _ & _ & _ & _ & _ & _ & _ & G) H Cl.
+  intros (G1 & G2 & _ & _ & _ & _ & _ & _ & _ & _ & _ & _ & _ & G) H Cl.
   unfold command.
   destruct (Z.eqb_spec (k_state k) st_connected) as [S|S].
   - (* already connected *)
